@@ -5,7 +5,7 @@
 (* is what the specification says the call returns: [e |-> "" or the name  *)
 (* of the exception class, s |-> the resulting diagram].                   *)
 (***************************************************************************)
-EXTENDS Diagrams
+EXTENDS Sums
 CONSTANTS Sig,        \* sequence of box records [id, kind, dom, cod, dg]
           Doms,       \* set of types a program may start from
           MaxBoxes, MaxWidth
@@ -96,6 +96,12 @@ InvLaws ==
   /\ Tensor(IdD(<<>>), d) = d /\ Tensor(d, IdD(<<>>)) = d
   /\ Dagger(Then(d, Dagger(d))) = Then(d, Dagger(d))
   /\ Tensor(d, d) = Then(WhiskR(d, d.dom), WhiskL(d.cod, d))
+\* C02 for sums: the sums built from the register, its dagger-composite and the
+\* generators satisfy the bilinearity laws of Sums.tla
+InvSums ==
+  LET a == Lift(d) b == SumOf(d.dom, d.cod, <<d, d>>) IN
+  /\ Bilinear(a, b, Lift(Dagger(d))) /\ Bilinear(b, a, b) /\ Bilinear(Zero(d.dom, d.cod), b, Lift(Dagger(d)))
+  /\ WellFormedSum(SumThen(b, SumDagger(b))) /\ WellFormedSum(SumTensor(b, a))
 \* C06: on connected diagrams the normal form exists, is a fixed point and
 \* is constant on the interchanger-equivalence class.
 InvNormalForm ==
